@@ -328,7 +328,7 @@ func (a *Analysis) EmitGolden(path string) error {
 // C02 – layouts equal the frozen schema rendering
 
 func (a *Analysis) CheckC02(rep *Report) {
-	rep.Explanation = "For every codec type, the wire layout extracted from Encode and, independently, the layout extracted from Decode (field order, wire name, kind, number type, width, byte order, pad byte and side, prefix type, element layout, nested type, discriminator table and key field, computed-length and checksum annotations) are compared with the frozen rendering of the pinned generator output in golden/golden.json. The .pdsl schema files are not in the repository (empty submodule), so this frozen table is the only available oracle; it is keyed by type and wire field name, not by source text."
+	rep.Explanation = "For every codec type, the wire layout extracted from Encode and, independently, the layout extracted from Decode (field order, wire name, kind, number type, width, byte order, pad byte and side, prefix type, element layout, nested type, discriminator table and key field, computed-length and checksum annotations) are compared with the frozen rendering of the pinned generator output in golden/golden.json (G1, G2). G3: on every encode arm and decode path each field is rendered from the value's bytes as they are (an over-long text cut to exactly its first N bytes, a short one padded, numbers bit for bit) – the value transformations C01 M5 looks for are deviations from the schema's rendering too. The .pdsl schema files are not in the repository (empty submodule), so this frozen table is the only available oracle; it is keyed by type and wire field name, not by source text."
 	rep.Trusted = append(trustedBase(), "golden/golden.json is a faithful rendering of the pinned schema (audited: generated test literals agree with every text width; session messages spot-checked against the public interface documents)")
 	rep.Exhaustive = true
 	g, err := loadGolden()
@@ -360,7 +360,14 @@ func (a *Analysis) CheckC02(rep *Report) {
 				}
 				rep.Ob("G1-field", fmt.Sprintf("%s.%s#%d(%s)", ct.Name, dir, i, gold[i].Name), got == want, a.P.Pos(l.Fields[i].Pos),
 					fmt.Sprintf("%s renders field %d as %s; the pinned schema says %s", dir, i, got, want))
+				// the schema's rendering of a value is its bytes as they are – the first N of an over-long text, padded when
+				// short, numbers bit for bit: any other treatment of the value differs from the schema's interpreter on some value
+				if ops := allValueOps(l.Fields[i]); len(ops) > 0 {
+					rep.Ob("G3-value-rendered-verbatim", fmt.Sprintf("%s.%s#%d(%s)", ct.Name, dir, i, gold[i].Name), false, a.P.Pos(l.Fields[i].Pos),
+						fmt.Sprintf("%s does not render field %d from the value's bytes as they are: %s", dir, i, strings.Join(ops, "; ")))
+				}
 			}
+			rep.Ob("G3-value-rendered-verbatim", ct.Name+"."+dir, true, "", "")
 		}
 		for _, pl := range tl.EncAll {
 			check("Encode", pl.Layout, false)
@@ -516,6 +523,40 @@ func (a *Analysis) CheckC03(rep *Report, tier string) {
 				})
 			}
 		}
+		// every success path must render every atom recognisably: bytes that reach the wire outside a number atom where
+		// the main rendering has a multi-byte number (e.g. a digest's Sum(nil) appended as raw bytes) have no established order
+		established := func(dir string, pl *PathLayout, main *Layout) {
+			for i, f := range pl.Layout.Fields {
+				bad := ""
+				switch {
+				case f.Kind == "irregular":
+					bad = f.Note
+				case main != nil && len(main.Fields) == len(pl.Layout.Fields) && f.Kind != main.Fields[i].Kind:
+					multi := false
+					orderAtoms(main.Fields[i], func(_, order string, _ *FieldLayout) {
+						if order != "" {
+							multi = true
+						}
+					})
+					if multi {
+						bad = "rendered as " + f.Canon() + " where the other paths render " + main.Fields[i].Canon()
+					}
+				}
+				if bad != "" {
+					rep.Ob("B1-order-established", fmt.Sprintf("%s.%s#%d[%s]", ct.Name, dir, i, pl.Conds), false, a.P.Pos(f.Pos),
+						"on this path the bytes of field "+f.Name+" do not pass through a recognised number atom, so their byte order cannot be established: "+bad)
+				}
+			}
+		}
+		for _, pl := range tl.R.Enc {
+			if !pl.BodyNil {
+				established("Encode", pl, tl.EncMain.Layout)
+			}
+		}
+		for _, pl := range tl.R.Dec {
+			established("Decode", pl, tl.DecMain.Layout)
+		}
+		rep.Ob("B1-order-established", ct.Name, true, "", "")
 		for _, pl := range tl.R.Enc {
 			checkLayout("Encode", pl.Layout)
 			// in-place patches
